@@ -10,9 +10,10 @@ from __future__ import annotations
 
 import core
 import renderlib as R
+from props import c02_seq as S
 
 LEVEL = "proof"
-EXTRA_TARGETS = ["model/RenderTie.vo", "model/RenderDataTie.vo"]
+EXTRA_TARGETS = ["model/RenderTie.vo", "model/RenderDataTie.vo", "model/BlockSeqTie.vo"]
 THRESHOLDS = [0.0, 1 / 255, 0.5, 254 / 255, 0.999]
 NO_ALPHA_MODES = {"1", "L", "RGB", "HSV", "CMYK"}  # common.py: modes rendered without an alpha channel
 
@@ -60,6 +61,11 @@ def corpus():
     for alpha in (0.5, "#", "#102030", None):
         cs.append({"style": "block", "cells": [6, 2], "alpha": alpha, "args": {}, "on_kitty": False, "term_bg": [18, 52, 86],
                    "img": {"mode": "P", "size": [6, 4], "seed": 5, "kind": "runs", "ptrans": 1, "alphas": [255]},
+                   "want_source_pixels": True, "identity": True})
+    # threshold boundaries: round(alpha * 255) is 128 for .5 and 255 for .999 (pixels with alpha 127 / 254 are below it)
+    for alpha in (0.5, 0.999, 1 / 255):
+        cs.append({"style": "block", "cells": [6, 2], "alpha": alpha, "args": {}, "on_kitty": False, "term_bg": [18, 52, 86],
+                   "img": {"mode": "RGBA", "size": [6, 4], "seed": 7, "kind": "random", "alphas": [127, 128, 254, 255, 0, 1]},
                    "want_source_pixels": True, "identity": True})
     return cs
 
@@ -141,28 +147,149 @@ def uniform_check(case, res):
     return None
 
 
+def interleave(cases, sequences):
+    """Single renders and sequences spread evenly over the driver processes."""
+    out, step = [], max(1, len(cases) // max(1, len(sequences)))
+    ci = 0
+    for q in sequences:
+        out += cases[ci:ci + step] + [q]
+        ci += step
+    return out + cases[ci:]
+
+
+def deinterleave(results, ncases, nseq):
+    step = max(1, ncases // max(1, nseq))
+    impl, simpl, ci, k = [], [], 0, 0
+    for _ in range(nseq):
+        take = max(0, min(step, ncases - ci))
+        impl += results[k:k + take]
+        simpl.append(results[k + take])
+        k += take + 1
+        ci += take
+    return impl + results[k:], simpl
+
+
+def evaluate(cases, impl, tag):
+    """renderlib.evaluate on results already obtained (smaller shards: more of them side by side).
+    Returns (codes per case, lex_errors per case, infrastructure errors)."""
+    import lexer
+    terms, owner = [], []
+    codes = [0] * len(cases)
+    lexerr = [None] * len(cases)
+    for i, (c, r) in enumerate(zip(cases, impl)):
+        if "error" in r:
+            lexerr[i] = "render raised " + r["error"]
+            continue
+        try:
+            toks = R.strip_payload(lexer.lex(r["out"]))
+        except lexer.LexError as e:
+            lexerr[i] = f"unlexable output: {e}"
+            continue
+        r["toks"] = toks
+        terms.append(R.case_term(c, r, toks))
+        owner.append(i)
+    errors = []
+    if terms:
+        bad, errors = core.coq_shards(tag, R.HEADER, terms, "tcase", "bad cases", shard=48)
+        for idx, code in bad:
+            codes[owner[idx]] = code
+    return codes, lexerr, errors
+
+
+def run_sequences(sequences, failures, mismatches, distinct, judged):
+    """Render sequences (props/c02_seq.py): every block render handed out during a sequence is judged by
+    its own request.  Returns (histogram, infrastructure errors)."""
+    verdicts, simpl, errors = judged
+    sh = {"sequences": len(sequences), "requests": 0, "block_renders": 0, "at_render_resolution": 0, "length": {}, "via": {},
+          "alpha": {}, "instances": {}, "cls": {}, "source": {}, "multi_frame_instances": 0, "frame_modes": {},
+          "repeated_colour_and_size": 0, "equal_request_pairs": 0, "format_route_colour_requests": 0}
+    for c, v, r in zip(sequences, verdicts, simpl):
+        sh["length"][len(c["session"])] = sh["length"].get(len(c["session"]), 0) + 1
+        sh["instances"][len(c["instances"])] = sh["instances"].get(len(c["instances"]), 0) + 1
+        for inst in c["instances"]:
+            sh["cls"][inst["cls"]] = sh["cls"].get(inst["cls"], 0) + 1
+            sh["source"][inst["source"]] = sh["source"].get(inst["source"], 0) + 1
+            sh["multi_frame_instances"] += "pages" in inst["img"]
+        seen_colour, keys = {}, {}
+        for st in c["session"]:
+            sh["requests"] += 1
+            sh["via"][st.get("via")] = sh["via"].get(st.get("via"), 0) + 1
+            a = st.get("alpha")
+            ak = "None" if a is None else "#" if a == "#" else "colour" if isinstance(a, str) else "threshold"
+            sh["alpha"][ak] = sh["alpha"].get(ak, 0) + 1
+            if ak == "colour":
+                size = tuple(st.get("size") or c["instances"][st["inst"]]["cells"])
+                sh["repeated_colour_and_size"] += (a, size) in seen_colour
+                seen_colour[(a, size)] = True
+                sh["format_route_colour_requests"] += st.get("via") in ("format", "iter")
+        for q in v["reqs"]:
+            sr = q.get("sr")
+            if sr and "out" in sr:
+                sh["frame_modes"][str(sr.get("frame_mode"))] = sh["frame_modes"].get(str(sr.get("frame_mode")), 0) + 1
+                k = S.request_key(c, c["session"][q["step"]], sr, q["size"])
+                sh["equal_request_pairs"] += keys.get(k, 0)
+                keys[k] = keys.get(k, 0) + 1
+        sh["block_renders"] += v["renders"]
+        sh["at_render_resolution"] += v["at_resolution"]
+        if v["renders"] >= 2 and v["at_resolution"] >= 1:
+            distinct.add(core.sig(["sequence", c]))
+        if S.failing(v):
+            if len([f for f in failures if f.get("sequence")]) < 3 and not core.over_budget():
+                c2, v2, r2 = S.shrink(c, v, r, "c02q")
+            else:
+                c2, v2, r2 = S.concrete(c, r), v, r
+            j = v2["step"] if v2["step"] is not None else 0
+            outs = []
+            for sr in r2.get("session", []):
+                for x in sr.get("multi", [sr]):
+                    outs.append({k: (x[k][:1500] if k == "out" else x[k]) for k in x if k in ("out", "error", "frame", "frame_mode", "cls")})
+            failures.append({"signature": core.sig(["sequence", c2]), "sequence": True,
+                             "what": f"request {j + 1} of a sequence of renders in one process: {S.why(c2, v2)} — {S.describe(c2)}",
+                             "replay": {"case": c2, "offending_request": j + 1, "results": outs}})
+        elif v["code"] & 1:
+            mismatches.append({"case": S.concrete(c, r), "code": v["code"], "step": v["step"],
+                               "explain": "a block render of the sequence differs from the sequence model (BlockSeq.bs_run / "
+                                          "Block.render / RenderData.render_px)"})
+    return sh, errors
+
+
 def run(ctx):
+    from concurrent.futures import ThreadPoolExecutor
     rng = ctx.rng
+    sequences = []
     if ctx.replay:
         cases = [ctx.replay["replay"]["case"]]
+        if "instances" in cases[0]:
+            cases, sequences = [], cases
     else:
-        n = 300 if ctx.quick else 6000
+        n = 250 if ctx.quick else 6000
         cases = corpus() + [gen_case(rng) for _ in range(n)]
-    codes, lexerr, impl, errors = R.evaluate(cases, "c02")
+        # sequences use their own stream (derived from the seed): the single-render cases of a seed stay what they were
+        srng = __import__("random").Random(rng.getrandbits(64))
+        sequences = S.corpus() + [S.gen_sequence(srng) for _ in range(26 if ctx.quick else 1200)]
+    # one run of the implementation driver for everything, then the three comparisons inside Coq side by side
+    # (all of it is subprocess-bound)
+    todo = interleave(cases, sequences)
+    # (a driver process costs ~1 s of start-up against ~10 ms per render: few, larger chunks)
+    impl_all = core.run_impl_parallel("impl_render.py", todo, chunk=max(1, (len(todo) + 7) // 8) if ctx.quick else None)
+    impl, simpl = deinterleave(impl_all, len(cases), len(sequences))
+    rd_idx = [i for i, c in enumerate(cases) if c.get("identity") and "src" in impl[i] and "rgb" in impl[i]
+              and len(impl[i]["src"]) == len(impl[i]["rgb"])]
+    with ThreadPoolExecutor(max_workers=3) as ex:
+        fut_q = ex.submit(S.judge, sequences, "c02q", simpl) if sequences else None
+        fut_rd = ex.submit(core.coq_shards, "c02rd", RD_HEADER, [rd_term(cases[i], impl[i]) for i in rd_idx], "rdcase",
+                           "rd_bad cases", 40) if rd_idx else None
+        codes, lexerr, errors = evaluate(cases, impl, "c02") if cases else ([], [], [])
+        judged = fut_q.result() if fut_q else ([], [], [])
+        rd_bad, rd_errs = fut_rd.result() if fut_rd else ([], [])
     mismatches, failures = [], []
     hist = {"mode": {}, "kind": {}, "alpha": {}, "alpha_mode": {}, "on_kitty": {}, "split": {}, "identity": 0,
             "runs_per_line_avg": 0}
     distinct = set()
     runs = cells = 0
     # source pixels -> render data, judged inside Coq (model/RenderDataTie.v)
-    rd_idx = [i for i, c in enumerate(cases) if c.get("identity") and "src" in impl[i] and "rgb" in impl[i]
-              and len(impl[i]["src"]) == len(impl[i]["rgb"])]
-    rd_codes = {}
-    if rd_idx:
-        bad, errs = core.coq_shards("c02rd", RD_HEADER, [rd_term(cases[i], impl[i]) for i in rd_idx], "rdcase",
-                                    "rd_bad cases", shard=60)
-        errors += errs
-        rd_codes = {rd_idx[k]: code for k, code in bad}
+    errors = errors + rd_errs
+    rd_codes = {rd_idx[k]: code for k, code in rd_bad}
     hist["source_to_render_data_cases"] = len(rd_idx)
     for i, c in enumerate(cases):
         r = impl[i]
@@ -208,19 +335,39 @@ def run(ctx):
             mismatches.append({"case": c, "code": codes[i],
                                "explain": R.explain(c, r, "c02") if len(mismatches) < 3 else ""})
     hist["runs_per_line_avg"] = round(runs / max(1, sum(c["cells"][1] for c in cases)), 2)
+    if sequences:
+        hist["sequences"], serrors = run_sequences(sequences, failures, mismatches, distinct, judged)
+        errors = errors + serrors
+    for f in failures:
+        f.pop("sequence", None)
     return {
         "corr_name": "Block.render (model) == lexed BlockImage renders; Block.expect == cells shown by Term.exec; "
                      "RenderData.render_px (model) == data returned by _get_render_data at render resolution, "
-                     "RenderData.src_expect (specification) == what those data show",
-        "evaluations": len(cases),
+                     "RenderData.src_expect (specification) == what those data show; "
+                     "BlockSeq.bs_run (sequence model: the i-th output is the render of the i-th request alone) == the block "
+                     "renders handed out during sequences of requests over several instances",
+        "evaluations": len(cases) + hist.get("sequences", {}).get("block_renders", 0),
         "distinct_nontrivial": len(distinct),
         "rule": "corpus (9 modes x 3 alpha settings + hand-made run/alpha/background cases) + random images generated for run "
                 "structure (colour runs, alpha flips inside runs, single-pixel changes, uniform, pixels equal to the terminal "
                 "background), all nine modes, thresholds {0, 1/255, .5, 254/255, .999}, '#', hex, None; terminal background "
                 "known/unknown; kitty work-around on/off; split cells on/off; 35% at render resolution with bilevel or partial alpha "
                 "(Pillow-independent identity check incl. the exact composite over the background). Non-trivial: >= 2 columns and more colour runs than lines; distinct by "
-                "(image, cells, alpha, kitty, background).",
-        "samples": [R.describe(c) for c in cases[:1] + cases[-3:]],
+                "(image, cells, alpha, kitty, background).  SEQUENCES (one driver process each): corpus (the same background "
+                "colour and render size requested repeatedly over an opaque image, images with fully / partly transparent pixels, "
+                "LA and palette-transparency images, instances of BlockImage and two levels of subclasses, a kitty-style render in "
+                "between; every kind of alpha field through the format specifier next to the explicit parameter: '#', '##', "
+                "thresholds, all-decimal colours #102030 #000000 #123456 #999999, exponent-shaped #0e1234 #12e456; multi-page TIFF "
+                "RGB+RGBA, RGBA+RGB, L+LA+RGBA and GIF P(transparent index)+RGBA+RGB, file- and PIL-sourced, frames selected with "
+                "seek() in every order through str / format / _renderer and through ImageIterator incl. its seek()) + random "
+                "sequences of 3..8 requests over 1..4 instances (same image in several instances / classes, 30 % multi-page TIFF "
+                "with pages drawn from RGB RGBA LA L 1 CMYK, 10 % GIF, 15 % sources off render resolution, 12 % kitty / iterm2 "
+                "instances as interfering renders; per request: alpha drawn from two colours of the sequence (50 %), '#', None, "
+                "thresholds; route _renderer / format / str / iterator; seek; size change (20 %); terminal background or kitty "
+                "flag changed for one request).  Every block render is judged by qcheck inside Coq: single-render check, source "
+                "pixels of the frame selected by the history (exact composite), equal requests show equal pixels.  A sequence is "
+                "non-trivial when it hands out >= 2 block renders, >= 1 of them at render resolution.",
+        "samples": [R.describe(c) for c in cases[:1] + cases[-3:]] + [S.describe(c) for c in sequences[-2:]],
         "histogram": hist,
         "mismatches": mismatches,
         "failures": failures,
@@ -229,6 +376,12 @@ def run(ctx):
             "conversion, BOX resize and compositing are Pillow's (hypothesis of the theorem: the renderer is given (rgb, a)); "
             "validated by the identity-resolution and uniform-image cases where the expected pixels are known without Pillow",
             "a direct-colour terminal shows fg/bg halves as lib/Term.v's [visual] says",
+            "sequences: what the library keeps between two renders is, per instance, the selected frame and the size (the "
+            "state of model/BlockSeq.v); that nothing else is kept (module- / class-level caches, canvases, parsed settings) is "
+            "what the sequence correspondence validates at run time, it is not derived from the source text",
+            "decoding of multi-frame files (TIFF pages, GIF frames) is Pillow's: the expected pixels of a frame are those of an "
+            "independent fresh decode of the same bytes positioned on that frame",
         ],
-        "trusted": ["harness/lexer.py", "impl driver captures _get_render_data's return value by wrapping it"],
+        "trusted": ["harness/lexer.py", "impl driver captures _get_render_data's return value by wrapping it",
+                    "impl driver's own bookkeeping of the frame it selected (never read back from the instance under test)"],
     }
